@@ -134,11 +134,27 @@ pub fn generate(seed: u64, fault_free: bool) -> FreezeOut {
             3 => {
                 // reassign operators: the frozen twin keeps the operator values (and precedences) it saw
                 reassigned = true;
-                // (`-` stays put: negative literals are spelled with it, so swapping it would change
-                // the meaning of the generated text itself)
-                let (a, b) = *fg.rng.pick(&[("+", "*"), ("+", "*"), ("*", "//")]);
+                // (negative literals are spelled `(0-n)`; the model reads them through `-` too, so
+                // `-` may be reassigned like any other operator)
+                let (a, b) = *fg.rng.pick(&[("+", "*"), ("+", "*"), ("*", "//"), ("-", "+"), ("-", "*")]);
                 fg.feat("swap-operators");
                 g.push("swap-operators", Ex::Swap(Box::new(lv(a)), Box::new(lv(b))), vec![])
+            }
+            4 if fg.rng.chance(1, 4) => {
+                // `-` bound to something that is not the builtin: unary and binary uses, and
+                // negative literals, follow it -- in frozen code as of freeze time
+                reassigned = true;
+                fg.feat("minus-rebound-to-closure");
+                let body = bin(call("len", vec![var("a")]), "+", int(fg.rng.range(40, 49)));
+                g.push(
+                    "reassign-minus",
+                    Ex::Assign(
+                        false,
+                        Box::new(lv("-")),
+                        Box::new(Ex::Lambda(vec![Lv::Splat(Box::new(lv("a")))], Box::new(body))),
+                    ),
+                    vec![],
+                )
             }
             4 => {
                 reassigned = true;
@@ -172,7 +188,22 @@ pub fn generate(seed: u64, fault_free: bool) -> FreezeOut {
             6 => {
                 // negative: an unbound free variable makes freezing fail at once
                 let name = fg.fresh("G");
-                let lam = Ex::Lambda(vec![lv("z")], Box::new(bin(var("z"), "+", var("not_declared_anywhere"))));
+                let lam = match fg.rng.below(6) {
+                    // a bare underscore in any position
+                    0 => Ex::Lambda(vec![lv("z")], Box::new(Ex::If(Box::new(var("z")), Box::new(int(1)), Some(Box::new(var("_")))))),
+                    1 => Ex::Lambda(vec![lv("z")], Box::new(Ex::Return(Some(Box::new(var("_")))))),
+                    2 => Ex::Lambda(vec![lv("z")], Box::new(Ex::Dict(None, vec![(var("z"), Some(var("_")))]))),
+                    // an unbound name in less obvious positions
+                    3 => Ex::Lambda(
+                        vec![lv("z")],
+                        Box::new(Ex::Try(Box::new(var("z")), Box::new(lv("err")), Box::new(var("not_declared_anywhere")))),
+                    ),
+                    4 => Ex::Lambda(
+                        vec![lv("z")],
+                        Box::new(Ex::Lambda(vec![lv("w")], Box::new(bin(var("w"), "+", var("not_declared_anywhere"))))),
+                    ),
+                    _ => Ex::Lambda(vec![lv("z")], Box::new(bin(var("z"), "+", var("not_declared_anywhere")))),
+                };
                 g.push("freeze-unbound", declare(&name, Ex::Freeze(Box::new(lam))), vec![])
             }
             7 => {
